@@ -618,6 +618,9 @@ pub(crate) use impl_numeric_bound_validator;
 pub trait NumericBound {
     fn upper(&self) -> Option<TokenStream>;
     fn lower(&self) -> Option<TokenStream>;
+
+    /// Returns true if at least one of the boundaries is exclusive (`greater` or `less`).
+    fn has_exclusive_bound(&self) -> bool;
 }
 
 macro_rules! impl_numeric_bound_on_vec_of {
@@ -644,6 +647,11 @@ macro_rules! impl_numeric_bound_on_vec_of {
                 }
 
                 values.into_iter().next()
+            }
+
+            fn has_exclusive_bound(&self) -> bool {
+                self.iter()
+                    .any(|v| matches!(v, $validator::Less(_) | $validator::Greater(_)))
             }
 
             fn lower(&self) -> Option<TokenStream> {
